@@ -11,7 +11,60 @@ GROUP = "Wal"
 BINARY = "walcheck"
 
 SIG_TYPE = "single bit flip in a WAL record's Type byte (the record CRC covers only Data)"
-SIG_CRC0 = "bit flip in the Crc field of the first segment's crc record (not validated while the running crc is 0)"
+SIG_COLL = "torn write whose zero-filled record Data has the same CRC-32C as the written Data (CRC-32 collision)"
+
+_POLY = 0x82F63B78
+_TAB = []
+for _i in range(256):
+    _c = _i
+    for _ in range(8):
+        _c = (_c >> 1) ^ _POLY if _c & 1 else _c >> 1
+    _TAB.append(_c)
+
+
+def crc32c(bs, crc=0):
+    s = crc ^ 0xFFFFFFFF
+    for b in bs:
+        s = _TAB[(s ^ b) & 0xFF] ^ (s >> 8)
+    return s ^ 0xFFFFFFFF
+
+
+def damage(data, kind):
+    """the tail segment's bytes under a T / X / Z image (X is judged like T: missing bytes read as absent)"""
+    f = kind.split(":")
+    b = bytearray(data)
+    if f[0] in ("T", "X"):
+        c = min(int(f[1], 16), len(b))
+        b[c:] = bytes(len(b) - c)
+    elif f[0] == "Z":
+        for k in range(1, len(f) - 1, 2):
+            a = min(int(f[k], 16), len(b))
+            e = min(a + int(f[k + 1], 16), len(b))
+            b[a:e] = bytes(e - a)
+    return bytes(b)
+
+
+def crc_collision(orig, fmap, kind):
+    """NoCrcCollision evaluated directly (no model): is there a written frame whose length field and record
+    header survived, whose Data bytes changed, and whose changed Data has the same CRC-32C?"""
+    cls, end = fmap
+    dmg = damage(orig, kind)
+    off = 0
+    while off + 8 <= end:
+        l = int.from_bytes(orig[off:off + 8], "little")
+        rb = l & ((1 << 56) - 1)
+        pad = (l >> 56) & 7 if l >> 63 else 0
+        fe = off + 8 + rb + pad
+        if dmg[off:fe] != orig[off:fe]:
+            drange = [i for i in range(off + 8, off + 8 + rb) if cls.get(i) == "data"]
+            hdr = [i for i in range(off, off + 8 + rb) if cls.get(i) != "data"]
+            if drange and all(dmg[i] == orig[i] for i in hdr):
+                d0 = bytes(orig[i] for i in drange)
+                d1 = bytes(dmg[i] for i in drange)
+                if d0 != d1 and crc32c(d0) == crc32c(d1):
+                    return True
+        off = fe
+    return False
 
 
 # ----------------------------------------------------------------------------- parsing
@@ -245,6 +298,11 @@ def oracle(cases, impl):
         sig = None
         if fclass == "type":
             sig = SIG_TYPE
+        if ik in ("T", "X", "Z"):
+            stats["nocrc_evaluated"] = stats.get("nocrc_evaluated", 0) + 1
+            if crc_collision(cur["files"][-1][1], cur["fmap"][-1], c[2]):
+                stats["nocrc_false"] = stats.get("nocrc_false", 0) + 1
+                sig = SIG_COLL
         final = o["final"]
         okey = ("ok" if o["r1"].startswith("ok") else o["r1"]) + \
                ("" if o["rep"] is None else "/rep=%s" % o["rep"]) + \
@@ -441,9 +499,9 @@ def run(ctx):
              "Non-trivial = a damaged image (T/X/Z/B) whose reopen returned data, distinct by hash of history+image.",
         histogram=hist_all,
         reopen_stats=stats_all,
-        no_crc_collision="evaluated on every image by the direct oracle: an accepted record that was never written "
-                         "would show up as 'not the effect of any prefix'; count = %d"
-                         % len([f for f in all_fail if f["name"].startswith("notprefix") and not f.get("signature")]),
+        no_crc_collision="NoCrcCollision evaluated (independent Python CRC-32C) on %d torn images (T/X/Z): false on %d "
+                         "(only the crafted corpus case is expected)"
+                         % (stats_all.get("nocrc_evaluated", 0), stats_all.get("nocrc_false", 0)),
         mismatches=len(all_mism),
         samples=samples[:6],
     ), assumptions=[
